@@ -398,7 +398,7 @@ pub fn run(rep: &mut Report, thorough: bool, replay: Option<Value>) {
             let mut expect: Vec<(u32, (u32, u32))> =
                 evs.iter().filter_map(|e| if let Ev::Resp(k) = e { Some(*k) } else { None }).filter(|k| metas.contains(k)).map(|k| (k, (10 * k, 100 + k))).collect();
             expect.sort();
-            let mut run = || {
+            let run = || {
                 let r = exhaustive(&sim, async || {
                     let mut acks = vec![];
                     let mut early: Vec<(u32, (u32, u32))> = vec![];
